@@ -111,15 +111,18 @@ class ParCons(RankAggAlgorithm, PairwiseBasedAlgorithm):
                 # creation of a new Dataset representing the sub-problem
                 # rankings with no element of the component are kept (empty): they induce costs as well
                 sub_problem = dataset.sub_problem_from_elements(set_current_elements, keep_empty_rankings=True)
+                # the elements of the sub-problem may have been re-typed (str -> int) by the Dataset constructor:
+                # the consensus must be made of the elements of the initial dataset
+                elements_by_name = {str(elem): elem for elem in set_current_elements}
                 if len(scc_i) > self._bound_for_exact:
                     cons_ext = self._auxiliary_alg.compute_consensus_rankings(
                         sub_problem, scoring_scheme, True).consensus_rankings[0]
-                    res.extend(cons_ext)
+                    res.extend({elements_by_name[str(elem)] for elem in bucket} for bucket in cons_ext)
                     optimal = False
                 else:
                     cons_ext = self._exact_alg.compute_consensus_rankings(
                         sub_problem, scoring_scheme, True).consensus_rankings[0]
-                    res.extend(cons_ext)
+                    res.extend({elements_by_name[str(elem)] for elem in bucket} for bucket in cons_ext)
 
         hash_information = {
             ConsensusFeature.ASSOCIATED_ALGORITHM: self.get_full_name(),
